@@ -693,8 +693,10 @@ impl Fiber {
     // grab the appropriate exception handler
     let exception_handler = match self.exception_handler() {
       Some(exception_handler) => {
+        // frames up to and including the bottom frame belong to the code that
+        // called into native code, their handlers are beyond the native boundary
         let bottom_frame = bottom_frame.unwrap_or(0);
-        if exception_handler.call_frame_depth() >= bottom_frame {
+        if exception_handler.call_frame_depth() > bottom_frame {
           exception_handler
         } else {
           return UnwindResult::UnwindStopped;
